@@ -106,6 +106,7 @@ func prefOf(c *tls.Config) string {
 // StartAcceptor runs a gRPC-like accept loop: continue on temporary errors, stop otherwise.
 func (w *Wire) StartAcceptor(name string) {
 	w.R.Sched.Go(name, "acceptor", func() {
+		tempStreak := 0
 		for {
 			res := &acceptRes{by: name}
 			var c net.Conn
@@ -120,10 +121,16 @@ func (w *Wire) StartAcceptor(name string) {
 				res.temporary = isTemporary(res.err)
 				w.Accepted = append(w.Accepted, res)
 				if res.temporary {
+					// an application retries after a temporary error; one that gets nothing but temporary errors, one after the
+					// other without ever blocking, is spinning on a dead listener - the loop ends here so that the run can say so
+					if tempStreak++; tempStreak > 200 {
+						return
+					}
 					continue
 				}
 				return
 			}
+			tempStreak = 0
 			res.raw = c
 			if pc, ok := c.(*protocol.Conn); ok {
 				res.conn = pc
